@@ -576,7 +576,9 @@ fn mode_run(inp: &str, out: &str) {
 // mode: table  (complete behaviour tree of a scope)
 
 #[allow(clippy::too_many_arguments)]
-fn table_cfg<T: FloatT>(ci: usize, cfg: &Value, alpha: &[i64], unit: i64, maxlen: usize, extras: bool, taps: bool, prefix: &[i64], w: &mut impl Write) {
+fn table_cfg<T: FloatT>(ci: usize, cfg: &Value, alpha: &[i64], unit: i64, maxlen: usize, extras: bool, taps: bool, prefix: &[i64], pow2: i32, w: &mut impl Write) {
+    // inputs are (x / unit) * 2^pow2: an exact change of units by a power of two (C12)
+    let scale = T::from(2.0f64.powi(pow2)).expect("scale");
     let a = alpha.len();
     // level l has a^l entries
     let mut obs: Vec<Vec<Value>> = (0..=maxlen).map(|l| vec![Value::Null; a.pow(l as u32)]).collect();
@@ -610,7 +612,7 @@ fn table_cfg<T: FloatT>(ci: usize, cfg: &Value, alpha: &[i64], unit: i64, maxlen
         };
         // an optional common prefix is fed before the tree starts (C03: what preceded must not matter)
         for &x in prefix {
-            g_update(&mut slot, T::from_ratio(x, unit));
+            g_update(&mut slot, T::from_ratio(x, unit) * scale);
         }
         let mut idx = 0usize;
         if first_new == 0 {
@@ -625,7 +627,7 @@ fn table_cfg<T: FloatT>(ci: usize, cfg: &Value, alpha: &[i64], unit: i64, maxlen
         for l in 1..=maxlen {
             idx = idx * a + codes[l - 1];
             drain_events();
-            g_update(&mut slot, T::from_ratio(alpha[codes[l - 1]], unit));
+            g_update(&mut slot, T::from_ratio(alpha[codes[l - 1]], unit) * scale);
             if l >= first_new {
                 obs[l][idx] = g_last(&mut slot);
                 if extras {
@@ -670,14 +672,15 @@ fn mode_table(inp: &str, out: &str) {
         .and_then(|p| p.as_array())
         .map(|a| a.iter().map(|x| x.as_i64().unwrap()).collect())
         .unwrap_or_default();
+    let pow2 = scope.get("pow2").and_then(|p| p.as_i64()).unwrap_or(0) as i32;
     for (ci, cfg) in scope["cfgs"].as_array().unwrap().iter().enumerate() {
         // a per-configuration maxlen may override the scope's
         let ml = cfg.get("maxlen").and_then(|m| m.as_u64()).map(|m| m as usize).unwrap_or(maxlen);
         let _ = ml;
         if f32_ {
-            table_cfg::<f32>(ci, cfg, &alpha, unit, maxlen, extras, taps, &prefix, &mut w);
+            table_cfg::<f32>(ci, cfg, &alpha, unit, maxlen, extras, taps, &prefix, pow2, &mut w);
         } else {
-            table_cfg::<f64>(ci, cfg, &alpha, unit, maxlen, extras, taps, &prefix, &mut w);
+            table_cfg::<f64>(ci, cfg, &alpha, unit, maxlen, extras, taps, &prefix, pow2, &mut w);
         }
     }
 }
